@@ -27,6 +27,8 @@ def vtok(v):
         return [6, v[1]]
     if t == 'e':
         return [5, v[1] * 100 + v[2]]
+    if t == 'k':
+        return [2, 777]       # a classifier object: for the model just another non-object value (only offered to references)
     raise AssertionError(v)
 
 
